@@ -39,7 +39,7 @@ theorem C02_progress (sync : Bool) (cap : Nat) (untilW : Bool) (acts : List (Act
     (hr : run (init sync cap untilW) acts = some s)
     (hbusy : s.pendingCas > 0 ∨ s.execPending > 0 ∨ s.snd.isSome ∨ s.lingering ≠ []) :
     ∃ a : Act α, (step s a).isSome = true ∧
-      (match a with | .beginWrite => False | .rejectWrite => False | .enqueue _ => False | .noSpace => False | .abortCtx => False | .abortClosed => False | .lock => False | .closeCas => False | _ => True) := by
+      (match a with | .parentCancel => False | .beginWrite => False | .rejectWrite => False | .enqueue _ => False | .noSpace => False | .abortCtx => False | .abortClosed => False | .lock => False | .closeCas => False | _ => True) := by
   have hinv := inv_run acts _ s (inv_init sync cap untilW) hr
   rcases hbusy with h | h | h | h
   · refine ⟨.casWriter, ?_, trivial⟩
